@@ -136,9 +136,11 @@ class QuantileLinearRegression(LinearRegression):
         else:
             Xm = X
 
+        # Xm is fitted at every iteration: the inner regression
+        # must not rescale it in place
         clr = LinearRegression(
             fit_intercept=False,
-            copy_X=self.copy_X,
+            copy_X=True,
             n_jobs=self.n_jobs,
             positive=self.positive,
         )
